@@ -1,9 +1,67 @@
 import Drivers.Proto
-/-! Model driver for property C03 (stub: no model operations registered yet). -/
-open Lean Proto
+import St4sd.Model.Repl
+/-! Model driver for property C03: `expand` = graph-level and text-level expansion of one workflow. -/
+open Lean Proto St4sd.Repl St4sd.Str
+
+def getOptNat (j : Json) (k : String) : Except String (Option Nat) :=
+  match j.getObjVal? k with
+  | .ok Json.null => pure none
+  | .ok v => do return some (← v.getNat?)
+  | .error _ => pure none
+
+def parseRef (j : Json) : Except String Ref := do
+  let isComp ← getBool j "comp"
+  if isComp then
+    let file ← getOptStr j "file"
+    return { isComp := true, stage := ← getNat j "stage", long := ← getBool j "long", name := ← getChars j "name",
+             file := file.map String.toList, method := ← getChars j "method" }
+  else
+    return { isComp := false, stage := 0, long := false, name := ← getChars j "text", file := none, method := [] }
+
+def parseComp (j : Json) : Except String (Comp × S) := do
+  let refs ← (← getArr j "refs").mapM parseRef
+  return ({ stage := ← getNat j "stage", name := ← getChars j "name", refs := refs, repl := ← getOptNat j "repl",
+            agg := ← getBool j "agg" }, ← getChars j "args")
+
+def cid (st : Nat) (nm : S) : Json := jstr (s!"stage{st}." ++ String.ofList nm)
 
 def handle (j : Json) : Except String Json := do
   let op ← getStr j "op"
-  throw s!"unknown op {op}"
+  match op with
+  | "expand" =>
+    let cs ← (← getArr j "comps").mapM parseComp
+    let wf := cs.map (·.1)
+    let inRefs := jarr (wf.map fun c => jarr (c.refs.map fun r => jchars (render r)))
+    match expand wf with
+    | .error e =>
+      let k := match e with | .unknown => "unknown" | .inconsistent => "inconsistent" | .duplicate => "duplicate"
+      -- the text level is still reported for a duplicate (replicate() itself does not fail then)
+      let t := match e, goText [] [] cs with
+        | .duplicate, some t => t
+        | _, _ => []
+      return jobj [("error", jstr k), ("in_refs", inRefs),
+        ("comps", jarr (t.map fun o => jobj [("id", cid o.stage o.name), ("refs", jarr (o.refs.map jchars))]))]
+    | .ok out =>
+      let t := (goText [] [] cs).getD []
+      let tj := t.map fun o => jobj [("id", cid o.stage o.name), ("refs", jarr (o.refs.map jchars)),
+        ("args", jchars o.args), ("replica", jopt jnat o.replica), ("replicate", jopt jnat o.repl)]
+      let gj := out.map fun o => jobj [("id", cid o.stage o.name), ("refs", jarr (o.refs.map fun r => jchars (render r))),
+        ("producers", jarr ((o.refs.filter (·.isComp)).map fun r => cid r.stage r.name)),
+        ("replica", jopt jnat o.replica), ("replicate", jopt jnat o.repl)]
+      let ej := (edges out).map fun e => jarr [cid e.1.1 e.1.2, cid e.2.1 e.2.2]
+      return jobj [("in_refs", inRefs), ("text", jarr tj), ("graph", jarr gj), ("edges", jarr ej)]
+  | "replica_old" =>
+    -- unrepaired compile_component_replica applied to the references of the last component for copy i
+    let cs ← (← getArr j "comps").mapM parseComp
+    let i ← getNat j "i"
+    match cs.reverse with
+    | [] => throw "no component"
+    | (c, a) :: restRev =>
+      let d : Done := match go [] [] (restRev.reverse.map (·.1)) with
+        | .ok (d, _) => d
+        | .error _ => []
+      return jobj [("refs", jarr ((c.refs.map render).map fun s => jchars (replicaTextOld d c i s))),
+                   ("args", jchars (replicaTextOld d c i a))]
+  | _ => throw s!"unknown op {op}"
 
 def main : IO Unit := serve handle
